@@ -143,6 +143,23 @@ Proof.
   - unfold sa_run. pose proof (sa_run_from_sound removes (reg_keys (st_sa st)) (st_sa st) H) as (_ & _ & H3).
     destruct (sa_run_from removes (reg_keys (st_sa st)) (st_sa st)). simpl in *. assumption.
   - destruct (nc_unregister obj msg listener (st_nc st)); simpl; assumption.
+  - destruct (nc_unregister_msg obj msg (st_nc st)); simpl; assumption.
+  - destruct (nc_unregister_obj obj (st_nc st)); simpl; assumption.
+Qed.
+
+Lemma al_get_put_same : forall (V : Type) k (f : option V -> V) t, al_get k (al_put k f t) = Some (f (al_get k t)).
+Proof.
+  induction t as [| [k' v] t IH]; simpl; [rewrite Nat.eqb_refl; reflexivity|].
+  destruct (Nat.eqb k k') eqn:E; simpl; rewrite E; [reflexivity | assumption].
+Qed.
+Lemma nc_notify_register : forall o m l a t,
+  nc_notify o m (nc_register o m l a t) = reg_set l a (odflt [] (nc_get o m t)).
+Proof.
+  intros o m l a t.
+  assert (Hg : nc_get o m t = al_get m (odflt [] (al_get o t))).
+  { unfold nc_get. destruct (al_get o t); reflexivity. }
+  rewrite Hg. unfold nc_notify, nc_register, nc_get.
+  rewrite al_get_put_same. cbv beta iota. rewrite al_get_put_same. reflexivity.
 Qed.
 
 (* ---- ServerAction ------------------------------------------------------------------------------------------- *)
